@@ -29,6 +29,7 @@ type Program struct {
 	mu       sync.Mutex
 	regOnce  sync.Once
 	reg      map[int64][]*ssa.Function
+	regBg    []*ssa.Function
 }
 
 func (p *Program) isRepoPkg(path string) bool { return strings.HasPrefix(path, repoMod) }
